@@ -19,5 +19,5 @@ CONSTANTS
 VIEW View
 INVARIANTS
   Inv_Usable
-  Inv_C01 Inv_C02 Inv_C03 Inv_C05 Inv_C06 Inv_C07 Inv_C11 Inv_C12 Inv_C16 Inv_C18 Inv_Caps
+  Inv_C04 Inv_C01 Inv_C02 Inv_C03 Inv_C05 Inv_C06 Inv_C07 Inv_C11 Inv_C12 Inv_C16 Inv_C18 Inv_Caps
 CHECK_DEADLOCK FALSE
